@@ -26,6 +26,8 @@ POOL = [
     ('msg', '[1000.700]  -> wl_display@1.get_registry2(new id wl_registry@9)', 'get_registry2'),
     ('msg', '[1000.750] wl_display@1.frobnicate_nil(nil, 4)', 'frobnicate_nil'),                   # nil / enum-less int on an undescribed message
     ('msg', '[1000.760] wl_display@1.delete_id2(3, nil, wl_display@1)', 'delete_id2'),
+    ('msg', '[1000.770]  -> zz_unknown_iface@7.make(new id [unknown]@44, 1)', 'make'),             # an untyped new id outside wl_registry.bind
+    ('msg', '[1000.780]  -> zz_unknown_iface@7.set_title("")', 'set_title'),                       # a message the connection-naming code chokes on
     ('text', 'hello from the program', None),
     ('text', '', None),
     ('text', '   \t ', None),
